@@ -3,7 +3,8 @@ C17 — posterior simulation draws from the stated sampling distributions.
 
 Theorems: lean/PyGam/Props/C17.lean about `sample` (Model/Sampling.lean = GAM.sample / _sample_coef /
 _bootstrap_samples_of_smoothing / _simulate_coef_from_bootstraps / utils.load_diagonal) with the random generators as
-oracle arguments: rejections, shapes, with one bootstrap exactly one MVN call with (coef_, cov + sqrt(eps) I, n_draws),
+oracle arguments: rejections, shapes, with one bootstrap exactly one MVN call with (coef_, cov + sqrt(eps) diag(cov), n_draws)
+(relative loading: equivariant under rescaling of coefficients, keeps positive semi-definiteness — loaded_cov_rescale, loaded_cov_psd),
 simulated means = inverse link of modelmat(X) . draws, simulated responses = the family sampler called with
 `samplerParams` (Model/Dists.lean).
 
@@ -16,10 +17,32 @@ supplied draws (`C17 sample`).  Streams:
   sample.values     returned array (coef / mu / y) vs the model pipeline
   sample.gen-args   arguments received by choice / multivariate_normal vs the model (`choice k n`, calls, mean, cov)
   sample.reject     exception classes over quantity x fitted x n_draws x n_bootstraps x data validity vs `validate`
-  sample.load       cov + sqrt(eps) I (the covariance received by the MVN generator) vs `loadDiagonal sqrtEpsMach`
+  sample.load       cov + sqrt(eps) diag(cov) (the covariance received by the MVN generator) vs `loadedCov`
   sample.bootstraps (thorough) n_bootstraps in {2, 3}: grouping of draws by bootstrap index, sizes and order of MVN calls
   sample.statistics (thorough) seeded real draws: mean / covariance of 2e4 coefficient draws vs coef_ / cov, standardised
                     response draws — supporting evidence only
+  sample.history    histories of sample() calls on ONE fitted object: three array objects (X itself, which is the query
+                    when sample_at_X is None, and two scenario buffers) whose contents are overwritten in place / that are
+                    replaced by new objects with equal or new contents between calls; quantities coef / mu / y alternate;
+                    predict and refits (same data, rescaled feature = moved knots, new responses) are interleaved.  Every
+                    call must return the pipeline applied to the CURRENT contents and the CURRENT fit: decided exactly with
+                    the coefficient draws a deep copy of the model (taken after its fit, used for nothing else) returns under
+                    the same seed, and compared with the per-call Lean model `sample` fed the latest fit's record and the rows
+                    at the current contents (Props/C17.lean: sample_stateless, history_mu_eq say that this is what the
+                    history model `runHistory` returns).  At the end of each history 2000 real draws are checked against
+                    N(coef_, cov) of the latest fit (stale state in the coefficient stage).
+Generator-agnostic oracles (nothing assumed about which numpy.random entry point produces the coefficient draws):
+  oracle.seeded-pipeline  under one seed, sample(mu | y) = g^-1(B(X) D^T)^T (resp. the documented sampler arguments at those
+                    means) for D = what sample(coef) returns for a copy of the model under the same seed; every model
+  sample.moments    real generators, seeded, 4000 draws: means (6 sigma) and variances (exact chi-square quantiles at the
+                    6-sigma level, + 64 m eps ||S|| numerical slack) of the coordinates, neighbour contrasts, random
+                    directions, model-matrix rows and eigenvectors of S = cov + sqrt(eps) diag(cov); mu at the same seed; standardised
+                    responses.  Models: one per class of the regular product + *stress* models whose covariance is badly
+                    conditioned (response units 1e-9 … 1e9 x data gap / duplicated feature / n < n_coefs / constant or badly scaled feature /
+                    plain x lam 1e-3 … 1e8 x n_splines) so that rare branches of whatever factorisation the sampler uses
+                    (Cholesky failure, negative eigenvalues) are exercised; a failure must repeat under a second seed.
+When numpy.random.multivariate_normal is not called at all, the capture streams report the broken correspondence
+(ctx.disagree -> no-failing-input-found: the property does not prescribe the entry point) and the two oracles above decide.
 Oracle (NumPy only): the property sentence by sentence on the recorded run (mean / covariance / size handed to the MVN
 generator, mu = g^-1(B(X) draws^T)^T, documented parameterisation of each response sampler, shapes, rejections).
 """
@@ -35,6 +58,13 @@ from harness.props import c09 as base
 
 EPS = 2.0 ** -52
 SQRT_EPS = 2.0 ** -26
+
+
+def loaded(cov):
+    """the covariance handed to the generator: load_diagonal(cov, load=sqrt(eps) * diag(cov)) = cov + sqrt(eps) diag(cov),
+    computed as the library's `cov + np.eye(n) * load` (the vector load broadcasts along the columns)"""
+    cov = np.asarray(cov, dtype=float)
+    return cov + np.eye(len(cov)) * (SQRT_EPS * np.diag(cov))
 MAX_FAILS = 10
 
 LABELS = ['LinearGAM', 'LinearGAM.known', 'LogisticGAM', 'PoissonGAM', 'GammaGAM', 'GammaGAM.known', 'InvGaussGAM',
@@ -351,7 +381,7 @@ def check_values(ctx, prepared):
     sv, sg = 'sample.values', 'sample.gen-args'
     ctx.stream(sv, 'gam.sample(quantity in coef|mu|y, n_bootstraps=1, sample_at_X) with supplied draws vs the model pipeline, 1e-12')
     ctx.stream(sg, 'arguments received by numpy.random.choice / multivariate_normal (mean, cov, size, number of calls) vs the model, 1e-12')
-    ctx.stream('oracle.pipeline', 'NumPy: MVN gets (coef_, cov + sqrt(eps) I, n_draws) once; mu = g^-1(B draws^T)^T; sampler parameterisation; shapes')
+    ctx.stream('oracle.pipeline', 'NumPy: MVN gets (coef_, cov + sqrt(eps) diag(cov), n_draws) once; mu = g^-1(B draws^T)^T; sampler parameterisation; shapes')
     good = [p for p in prepared if 'info' in p]
     for p in prepared:
         if 'info' not in p:
@@ -425,9 +455,9 @@ def check_values(ctx, prepared):
             c = rec.mvn_calls[0]
             if not close_arr(c['mean'], info['coef'], 1e-12 * np.abs(info['coef'])):
                 problems.append('MVN mean is not coef_')
-            want = info['cov'] + SQRT_EPS * np.eye(m)
+            want = loaded(info['cov'])
             if not close_arr(c['cov'], want, 1e-12 * np.abs(want)):
-                problems.append('MVN cov is not statistics_[cov] + sqrt(eps) I')
+                problems.append('MVN cov is not statistics_[cov] + sqrt(eps) diag(cov)')
             if c['size'] != nd or c['kw']:
                 problems.append('MVN size is not n_draws')
         try:
@@ -445,7 +475,7 @@ def check_values(ctx, prepared):
                 nfail += 1
                 ctx.fail('oracle.pipeline', sig, case, observed=dict(problems=problems, out=head(impl)),
                          expected=dict(out=head(want)),
-                         oracle='single bootstrap: MVN(coef_, cov + sqrt(eps) I, size=n_draws); mu = g^-1(B(X) draws^T)^T; '
+                         oracle='single bootstrap: MVN(coef_, cov + sqrt(eps) diag(cov), size=n_draws); mu = g^-1(B(X) draws^T)^T; '
                                 'y = family sampler at the documented parameters; shape (n_draws, m | rows)')
             continue
         # ---------- model vs implementation ----------------------------------------------------------
@@ -464,7 +494,7 @@ def check_values(ctx, prepared):
 # ------------------------------------------------------------------------------------------------
 def check_load(ctx, prepared):
     st = 'sample.load'
-    ctx.stream(st, 'the covariance received by multivariate_normal vs loadDiagonal sqrtEpsMach statistics_[cov] (bit-exact)')
+    ctx.stream(st, 'the covariance received by multivariate_normal vs loadedCov statistics_[cov] = cov + sqrt(eps) diag(cov) (bit-exact)')
     good = [p for p in prepared if 'info' in p and p['items'] and p['items'][0]['rec'].mvn_calls]
     outs = ctx.driver.run(['C17 load %d %s' % (p['info']['m'], ' '.join(f2bits(v) for v in p['info']['cov'].ravel())) for p in good])
     for p, out in zip(good, outs):
@@ -473,10 +503,10 @@ def check_load(ctx, prepared):
         got = p['items'][0]['rec'].mvn_calls[0]['cov']
         ctx.case(st, dict(label=p['cfg']['label'], mix=p['cfg']['mix'], idx=p['cfg']['idx']), nontrivial=True)
         if not np.array_equal(model, got):
-            want = p['info']['cov'] + SQRT_EPS * np.eye(m)
+            want = loaded(p['info']['cov'])
             if not close_arr(got, want, 1e-11 * np.abs(want)):
                 ctx.fail(st, dict(label=p['cfg']['label'], mix=p['cfg']['mix']), dict(cfg=p['cfg']), observed=got.tolist(),
-                         expected=want.tolist(), oracle='covariance handed to the MVN generator = reported covariance + sqrt(eps) I')
+                         expected=want.tolist(), oracle='covariance handed to the MVN generator = reported covariance + sqrt(eps) diag(reported covariance)')
             else:
                 ctx.disagree(st, dict(cfg=p['cfg']), got.tolist(), model.tolist(), 'loaded covariance')
 
@@ -562,7 +592,7 @@ def check_reject(ctx, P, prepared):
 def check_bootstraps(ctx, P, prepared):
     st = 'sample.bootstraps'
     ctx.stream(st, 'n_bootstraps in {2,3}: choice over arange(n_bootstraps); one MVN call per drawn bootstrap in order of first appearance, '
-                   'sizes = counts, bootstrap 0 = (coef_, cov + sqrt(eps) I), rows placed at the draw positions — vs the model')
+                   'sizes = counts, bootstrap 0 = (coef_, cov + sqrt(eps) diag(cov)), rows placed at the draw positions — vs the model')
     good = [p for p in prepared if 'info' in p and p['cfg']['label'] in ('LinearGAM', 'LinearGAM.known', 'GammaGAM.known', 'PoissonGAM')
             and p['cfg']['mix'] in ('s0', 's0+l1', 'l0+l1')]
     good = good[:6 if ctx.tier == 'quick' else 14]
@@ -634,9 +664,9 @@ def check_bootstraps(ctx, P, prepared):
             problems.append('MVN call sizes %s != counts %s in order of first appearance' % (sizes, [idx.count(b) for b in order]))
         if 0 in order:
             c0 = rec.mvn_calls[order.index(0)]
-            want = info['cov'] + SQRT_EPS * np.eye(m)
+            want = loaded(info['cov'])
             if not (close_arr(c0['mean'], info['coef'], 1e-12 * np.abs(info['coef'])) and close_arr(c0['cov'], want, 1e-12 * np.abs(want))):
-                problems.append('bootstrap 0 is not (coef_, cov + sqrt(eps) I)')
+                problems.append('bootstrap 0 is not (coef_, cov + sqrt(eps) diag(cov))')
         # rows placed at the draw positions
         draws = np.zeros((nd, m))
         for b, c in zip(order, rec.mvn_calls):
@@ -681,7 +711,7 @@ def check_statistics(ctx, P, prepared):
         seed = common.random.Random('C17-stats-%d-%d' % (cfg['seed'], cfg['idx'])).randrange(2 ** 31)
         rD = real_call(gam, seed, p['X'], p['y'], 'coef', N, None)
         D = rD[1]
-        S = info['cov'] + SQRT_EPS * np.eye(m)
+        S = loaded(info['cov'])
         sig = dict(label=cfg['label'], mix=cfg['mix'], seed=seed, what='coef')
         ctx.case(st, sig, nontrivial=True)
         if rD[0] != 'ok' or D is None or D.shape != (N, m) or not np.isfinite(D).all():
@@ -819,8 +849,8 @@ def step_problems(info, twin, gam, seed, X, y, quantity, n_draws, at):
 # stress models: badly conditioned coefficient covariances
 # ------------------------------------------------------------------------------------------------
 STRESS_FAMS = ['linear', 'linear', 'linear', 'poisson', 'logistic', 'gamma']
-STRESS_UNITS = [1.0, 1e3, 1e6, 1e6, 1e9, 1e-6]
-STRESS_KINDS = ['gap', 'dup', 'n<m', 'plain', 'const']
+STRESS_UNITS = [1.0, 1e3, 1e6, 1e6, 1e9, 1e-3, 1e-6, 1e-9]
+STRESS_KINDS = ['gap', 'dup', 'n<m', 'plain', 'const', 'badscale']
 STRESS_LAMS = [0.6, 1e-3, 1e4, 1e8]
 STRESS_FAMINFO = {'linear': ('LinearGAM', 'normal', 'identity'), 'poisson': ('PoissonGAM', 'poisson', 'log'),
                   'logistic': ('LogisticGAM', 'binomial', 'logit'), 'gamma': ('GammaGAM', 'gamma', 'log')}
@@ -836,9 +866,16 @@ def stress_cfgs(ctx):
     # every design at the largest units, for the family whose covariance scales with the units
     for kind in STRESS_KINDS:
         cfgs.append(dict(fam='linear', unit=1e6, kind=kind, lam=rng.choice(STRESS_LAMS)))
+        cfgs.append(dict(fam='linear', unit=rng.choice([1e6, 1e9]), kind=kind, lam=rng.choice(STRESS_LAMS)))
     cfgs.append(dict(fam='linear', unit=1e3, kind=rng.choice(STRESS_KINDS), lam=rng.choice(STRESS_LAMS)))
     cfgs.append(dict(fam='linear', unit=1.0, kind=rng.choice(STRESS_KINDS), lam=rng.choice(STRESS_LAMS)))
-    cfgs.append(dict(fam='linear', unit=1e-6, kind=rng.choice(STRESS_KINDS), lam=rng.choice(STRESS_LAMS)))
+    # small units: the covariance is tiny in absolute terms (any absolute diagonal load swamps it); badly scaled features:
+    # coefficient variances of order 1e-12 next to some of order 1 (a load relative to the largest entry swamps the small ones)
+    for unit in (1e-3, 1e-6, 1e-9):
+        cfgs.append(dict(fam='linear', unit=unit, kind=rng.choice(STRESS_KINDS), lam=rng.choice(STRESS_LAMS)))
+    cfgs.append(dict(fam='linear', unit=1.0, kind='badscale', lam=rng.choice(STRESS_LAMS)))
+    cfgs.append(dict(fam='linear', unit=rng.choice([1e-3, 1e-6, 1e3]), kind='badscale', lam=rng.choice(STRESS_LAMS)))
+    cfgs.append(dict(fam=rng.choice(['poisson', 'gamma']), unit=1.0, kind='badscale', lam=rng.choice(STRESS_LAMS)))
     for fam in ('poisson', 'logistic', 'gamma'):
         cfgs.append(dict(fam=fam, unit=rng.choice([1.0, 1e3, 1e6]), kind=rng.choice(STRESS_KINDS), lam=rng.choice(STRESS_LAMS)))
     extra = 5 if ctx.tier == 'quick' else 150
@@ -875,8 +912,10 @@ def stress_data(sc):
         n = 80
         x0 = rs.uniform(0, 1, n)
         x1 = rs.uniform(-2, 2, n)
-    X = np.c_[x0, x1]
     eta = np.sin(6 * x0) + 0.2 * (x1 if kind != 'const' else 0.0)
+    if kind == 'badscale':
+        x1 = x1 * 2.0 ** 20                   # a feature recorded in units a million times smaller: its coefficient is ~1e-6 times as large
+    X = np.c_[x0, x1]
     fam, unit = sc['fam'], sc['unit']
     if fam == 'linear':
         y = unit * (eta + 0.1 * rs.randn(n))
@@ -926,17 +965,20 @@ P_TAIL = 2e-9            # two-sided tail probability of every single bound: the
 
 
 def moment_problems(info, D, M_rows, fseed):
-    """First two moments of the coefficient draws `D` (N x m) and of linear functionals of them against coef_ and
-    S = statistics_['cov'] + sqrt(eps) I.  Functionals: the coordinates, differences of neighbouring coordinates, random
-    directions, rows of the model matrix (fitted / predicted values), extreme eigenvectors of S.  Bounds: the mean of a
-    functional a.D within z(P_TAIL) standard errors of a.coef_; its sample variance within the exact chi-square(N-1)
-    quantiles (P_TAIL) of a'Sa.  `statistics_['cov']` itself carries a rounding error of order eps ||S||: a numerical slack
-    of 64 m eps ||S||_2 |a|^2 is added to every variance (so functionals along numerically null directions of S are
-    bounded from above only)."""
+    """First two moments of the coefficient draws `D` (N x m) and of linear functionals b of them, directly against the
+    property text: mean b.coef_, variance b' cov b with cov = statistics_['cov'].  Functionals: the coordinates, differences
+    of neighbouring coordinates, random directions, rows of the model matrix (fitted / predicted values), extreme
+    eigenvectors.  Bounds: the mean of b.D within z(P_TAIL) standard errors of b.coef_; its sample variance between
+    lo b'cov b and hi (b'cov b + sqrt(eps) sum_i b_i^2 cov_ii) with lo, hi the exact chi-square(N-1) quantiles (P_TAIL) — the
+    second term is the relative diagonal loading (b'Sb for S = cov + sqrt(eps) diag(cov), Props/C17.lean: loaded_cov_psd),
+    the only departure from the reported covariance that is allowed: an absolute load, or one relative to the largest
+    entry, exceeds it for responses in small units / coefficients on mixed scales.  `statistics_['cov']` itself carries a
+    rounding error of order eps ||cov||: a numerical slack of 64 m eps ||S||_2 |b|^2 is added to every variance (so functionals
+    along numerically null directions are bounded from above only)."""
     import scipy.stats as st
     coef, m = info['coef'], info['m']
     N = D.shape[0]
-    S = info['cov'] + SQRT_EPS * np.eye(m)
+    S = loaded(info['cov'])
     S = (S + S.T) / 2.0
     rs = np.random.RandomState(fseed)
     F = [np.eye(m)[j] for j in range(m)]
@@ -954,7 +996,9 @@ def moment_problems(info, D, M_rows, fseed):
     with np.errstate(all='ignore'):
         Z = D @ F.T
         mean = F @ coef
-        var = np.einsum('ij,jk,ik->i', F, S, F)
+        C = (info['cov'] + info['cov'].T) / 2.0
+        var = np.einsum('ij,jk,ik->i', F, C, F)                                   # b' cov b: the property text
+        loadterm = SQRT_EPS * ((F ** 2) @ np.maximum(np.diag(C), 0.0))              # the relative loading: sqrt(eps) sum b_i^2 cov_ii
         slack = 64 * m * EPS * nrm * (F ** 2).sum(axis=1)
         lo = st.chi2.ppf(P_TAIL / 2, N - 1) / (N - 1)
         hi = st.chi2.isf(P_TAIL / 2, N - 1) / (N - 1)
@@ -962,9 +1006,9 @@ def moment_problems(info, D, M_rows, fseed):
         vpos = np.maximum(var, 0.0)
         vh = Z.var(axis=0, ddof=1)
         mh = Z.mean(axis=0)
-        se = np.sqrt((vpos + slack) / N)
+        se = np.sqrt((vpos + loadterm + slack) / N)
         bad_m = ~(np.abs(mh - mean) <= zq * se + 1e-9 * np.abs(mean))
-        bad_hi = ~(vh <= hi * vpos + slack)
+        bad_hi = ~(vh <= hi * (vpos + loadterm) + slack)
         bad_lo = ~(vh >= lo * vpos - slack)
     problems = []
     if not np.isfinite(D).all():
@@ -977,26 +1021,30 @@ def moment_problems(info, D, M_rows, fseed):
                 problems.append('%d of %d functionals: mean of the draws off by %.1f standard errors (first: functional %d, %.6g vs %.6g)'
                                 % (bad.sum(), len(F), float(np.abs(mh[k] - mean[k]) / se[k]), k, mh[k], mean[k]))
             else:
-                problems.append('%d of %d functionals: %s (first: functional %d, sample variance %.6g, a\'Sa %.6g, allowed [%.4f, %.4f] a\'Sa +- %.3g)'
-                                % (bad.sum(), len(F), name, k, vh[k], var[k], lo, hi, slack[k]))
+                problems.append('%d of %d functionals: %s (first: functional %d, sample variance %.6g = %.4g x b\'cov b (%.6g), allowed [%.4f, %.4f] b\'cov b + loading %.3g +- %.3g)'
+                                % (bad.sum(), len(F), name, k, vh[k], vh[k] / var[k] if var[k] > 0 else float('nan'), var[k], lo, hi, hi * loadterm[k], slack[k]))
     return problems, dict(functionals=len(F), degenerate=int((var <= slack).sum()))
 
 
 def response_problems(info, MU, Y):
-    """standardised response draws (y - mu) / sqrt(scale V(mu)) have mean 0 and variance 1 (7 / 9 sigma, as in
-    sample.statistics).  Returns (problems, n used)."""
+    """standardised response draws (y - mu) / sqrt(scale V(mu)) have mean 0 (7 sigma) and variance 1 (9 sigma, with the
+    standard error of the mean of r^2 from the theoretical kurtosis of each family).  Returns (problems, n used)."""
     fam, phi, lv = info['fam'], info['scale'], info['levels']
     with np.errstate(all='ignore'):
         V_ = {'normal': np.ones_like(MU), 'binomial': MU * (1 - MU / lv), 'poisson': MU, 'gamma': MU ** 2, 'inv_gauss': MU ** 3}[fam]
         R = (Y - MU) / np.sqrt(phi * V_)
-        okm = np.isfinite(R) & (V_ > 1e-12) & (np.abs(MU) < 1e8 * max(1.0, math.sqrt(phi)))
+        # theoretical kurtosis of the standardised draw at each entry; entries whose law is dominated by rare events
+        # (Bernoulli p(1-p) < 1/33, Poisson mean < 1/27, …) are left out: a mean of r^2 over them is not concentrated
+        pq = (MU / lv) * (1 - MU / lv)
+        kurt = {'normal': 3.0 + 0 * MU, 'binomial': 3.0 + (1 - 6 * pq) / (lv * pq), 'poisson': 3.0 + 1.0 / MU,
+                'gamma': 3.0 + 6 * phi + 0 * MU, 'inv_gauss': 3.0 + 15 * phi * MU}[fam]
+        okm = np.isfinite(R) & (V_ > 1e-12) & (np.abs(MU) < 1e8 * max(1.0, math.sqrt(phi))) & np.isfinite(kurt) & (kurt <= 30.0)
     R = R[okm]
     if R.size <= 1000:
         return [], int(R.size)
     n_ = R.size
     zm = abs(R.mean()) * math.sqrt(n_)
-    m4 = float(np.mean(R ** 4))
-    zv = abs(float(np.mean(R ** 2)) - 1) / math.sqrt(max(m4 - 1, 1e-3) / n_)
+    zv = abs(float(np.mean(R ** 2)) - 1) / math.sqrt(max(float(np.sum(kurt[okm] - 1.0)), 1e-3 * n_) / n_ ** 2)
     if zm > 7 or zv > 9:
         return ['standardised response draws: mean off by %.1f sigma, variance off by %.1f sigma (mean r^2 = %.4g)' % (zm, zv, float(np.mean(R ** 2)))], n_
     return [], n_
@@ -1049,11 +1097,11 @@ def moments_once(p, N, seed):
 def check_moments(ctx, P, stress, regular):
     st_ = 'sample.moments'
     ctx.stream(st_, 'real NumPy generators, seeded: first two moments of N coefficient draws and of linear functionals of them '
-                    '(coordinates, contrasts, random directions, rows of the model matrix, eigenvectors of S) vs coef_ and '
-                    'S = cov + sqrt(eps) I — means within 6 sigma, variances within the exact chi-square quantiles at the 6-sigma '
-                    'level, + 64 m eps ||S|| numerical slack; mu at the same seed = g^-1(B(X) draws^T)^T; standardised response '
-                    'draws; on models with badly conditioned covariances (units 1e-6 … 1e9 x data gap / duplicated feature / '
-                    'n < m / constant feature x lam 1e-3 … 1e8); a failure must repeat under a second seed')
+                    '(coordinates, contrasts, random directions, rows of the model matrix, eigenvectors) vs coef_ and the reported cov — means '
+                    'within 6 sigma, variances within [lo b\'cov b, hi (b\'cov b + sqrt(eps) sum b_i^2 cov_ii)] (exact chi-square quantiles at '
+                    'the 6-sigma level; the second term is the relative diagonal loading), + 64 m eps ||S|| numerical slack; mu at the same seed = g^-1(B(X) draws^T)^T; standardised response '
+                    'draws; on models with badly conditioned covariances (units 1e-9 … 1e9 x data gap / duplicated feature / '
+                    'n < m / constant feature / badly scaled feature x lam 1e-3 … 1e8); a failure must repeat under a second seed')
     N = 4000
     targets = [p for p in stress if 'info' in p]
     for p in stress:
@@ -1079,7 +1127,7 @@ def check_moments(ctx, P, stress, regular):
             key = 'C17-mom-r-%d-%d' % (cfg['seed'], cfg['idx'])
         seed = common.random.Random(key).randrange(2 ** 31)
         ctx.case(st_, sig, nontrivial=True)
-        S = info['cov'] + SQRT_EPS * np.eye(info['m'])
+        S = loaded(info['cov'])
         try:
             np.linalg.cholesky(S)
             ctx.count('loaded-covariance', 'cholesky-ok')
@@ -1097,7 +1145,7 @@ def check_moments(ctx, P, stress, regular):
             if again and nfail < MAX_FAILS:
                 nfail += 1
                 ctx.fail(st_, sig, dict(case, seed=seed), observed=dict(first_seed=problems[:6], second_seed=again[:6]),
-                         expected='coefficient draws ~ N(coef_, cov + sqrt(eps) I); mu = g^-1(B(X) draws); y ~ family(mu)',
+                         expected='coefficient draws ~ N(coef_, cov + sqrt(eps) diag(cov)); mu = g^-1(B(X) draws); y ~ family(mu)',
                          oracle='seeded concentration bounds on the real draws (each bound fails by chance with probability 2e-9; '
                                 'confirmed under a second seed)')
             elif not again:
@@ -1180,6 +1228,9 @@ def gen_history(ctx, h):
             steps.append(dict(op='predict', buf=rng.choice(['X', 'A', 'B'])))
         else:
             steps.append(dict(op='refit', kind=rng.choice(['same', 'rescale0', 'new-y'])))
+    if not any(s_['op'] == 'refit' and s_['kind'] != 'same' for s_ in steps):
+        # every history sees the fitted state change at least once, somewhere in the middle
+        steps.insert(rng.randrange(len(steps) // 4, 3 * len(steps) // 4 + 1), dict(op='refit', kind=rng.choice(['rescale0', 'new-y'])))
     return dict(h=h, cfg=cfg, steps=steps)
 
 
@@ -1332,7 +1383,7 @@ def check_history(ctx, P, only=None):
                     if again and nfail < MAX_FAILS:
                         nfail += 1
                         ctx.fail(st_, sig, dict(history=hc, step='end', seed=seed), observed=dict(first_seed=problems[:6], second_seed=again[:6]),
-                                 expected='after any history the coefficient draws are N(coef_, cov + sqrt(eps) I) of the latest fit',
+                                 expected='after any history the coefficient draws are N(coef_, cov + sqrt(eps) diag(cov)) of the latest fit',
                                  oracle='seeded concentration bounds on 2000 real draws after the history (confirmed under a second seed)')
 
 
